@@ -23,7 +23,7 @@ theorem lt_of_getElem? {α : Type} {l : List α} {n : Nat} {x : α} (h : l[n]? =
 
 theorem final_all_exited (net : Net) (wf : WF net) (s : State) (hi : Inv net s) (hf : Final s) :
     (∀ n, n < net.nodes.length → s.nodes n = .s []) ∧ s.ledger = 0 := by
-  obtain ⟨⟨pre, hpre, hj, _, hcl, _⟩, _, _⟩ := hi
+  obtain ⟨⟨pre, hpre, hj, _, hcl, _⟩, _, _, _⟩ := hi
   unfold Final at hf
   rw [hf, List.append_nil] at hpre
   subst hpre
@@ -66,14 +66,32 @@ theorem progress_of_inv (net : Net) (wf : WF net) (hub : Unbounded net) (s : Sta
         cases pend with
         | cons c r => exact ⟨.put n, by simp [step, hlt, hs, room, hub c]⟩
         | nil =>
-          obtain ⟨c, hc, hfed⟩ := wf.fed n nd hnd pre rest hscript
+          -- a channel of `n` on which a sentinel has certainly been put and which `n` has not taken it from
+          have hex : ∃ c, c ∈ nd.ins ∧ Fed net c pre ∧ (nd.all = true → c ∈ s.wait n) := by
+            obtain ⟨hf0, hf1⟩ := wf.fed n nd hnd pre rest hscript
+            cases ha : nd.all with
+            | false =>
+              obtain ⟨c, hc, hfed⟩ := hf0 ha
+              exact ⟨c, hc, hfed, by simp⟩
+            | true =>
+              obtain ⟨hne, hsub⟩ := hi.waitOk n nd hnd ha
+              have hne' := hne [] hs
+              cases hw : s.wait n with
+              | nil => exact absurd hw hne'
+              | cons c r =>
+                have hc : c ∈ nd.ins := hsub c (by rw [hw]; simp)
+                exact ⟨c, hc, hf1 ha c hc, by simp⟩
+          obtain ⟨c, hc, hfed, hcw⟩ := hex
           have hsp := sput_of_fed net s hi c pre hj hp hfed
-          rcases hi.keep c hsp with h | ⟨m, md, pend, hmd, hcm, hm, hr⟩
+          rcases hi.keep c hsp with h | ⟨m, md, pend, hmd, hcm, hm, hr⟩ | ⟨m, md, hmd, hcm, hma, hnw⟩
           · cases hq : s.chans c with
             | nil => rw [hq] at h; simp at h
             | cons x q =>
               cases x with
-              | stop => exact ⟨.get n c 0, by simp [step, hnd, hs, hc, hq]⟩
+              | stop =>
+                refine ⟨.get n c 0, ?_⟩
+                simp only [step, hnd, hs, hc, hq, and_self, if_true]
+                split <;> rfl
               | data =>
                 have hne := wf.plansNe n nd hnd
                 cases hpl : nd.plans with
@@ -89,5 +107,10 @@ theorem progress_of_inv (net : Net) (wf : WF net) (hub : Unbounded net) (s : Sta
               have := wf.uniq m md hmd hrb c hcm n nd hnd hc
               subst this
               rw [hs] at hm; cases hm
+          · have hrb := (wf.allOk m md hmd hma).1
+            have := wf.uniq m md hmd hrb c hcm n nd hnd hc
+            subst this
+            rw [hnd] at hmd; cases hmd
+            exact absurd (hcw hma) hnw
 
 end Lifecycle
